@@ -321,7 +321,7 @@ def main(tier):
             samples.append([ev_str(e) for e in hist_of[sid]])
     if rejected and not run.violations:
         run.note('%d loads of files of the universe were rejected by the parser (not judged by C15)' % rejected)
-    if (len(states) < 200 or hook_runs < 100 or rejected * 2 > transitions) and not run.violations:
+    if (len(states) < 200 or hook_runs < 100 or rejected * 2 > transitions) and not run.violations and not run.capped:
         raise common.HarnessError('vacuous: states=%d hook runs=%d rejected=%d of %d' % (len(states), hook_runs, rejected, transitions))
     cov = {'states': len(states), 'transitions': transitions, 'traces_validated_against_impl': transitions, 'samples': samples, 'exhaustive': complete,
            'files_in_universe': len(files), 'registration_sets': len(regsets), 'fresh_process_references': 2 * len(fresh), 'fresh_runs_with_a_failed_load': nbad_fresh,
